@@ -1,7 +1,7 @@
 import os
 import subprocess
 
-from checklib import core
+from checklib import core, steps
 from checklib.registry import generic, COMMON_NOTE
 
 FACTS = os.path.join(core.LEAN, "Ekit", "Generated", "HashMapFacts.lean")
@@ -20,10 +20,11 @@ def pregen(work):
         return "fact extraction failed: " + (p.stderr or p.stdout)[-800:]
     with core.LakeLock():
         core.write_if_changed(FACTS, p.stdout)
-    return None
+    # Ekit/Generated/HashMapGo.lean: the whole file as MiniGo terms (harness/minigohm), see steps.pregen_hm
+    return steps.pregen_hm(work)
 
 
-CORRS = [dict(harness="hashmap", area="hashmap")]
+CORRS = [dict(harness="hashmap", area="hashmap"), dict(harness="hashmap", area="hmptr", name="hashmap-hmptr")]
 
 try:
     # the registry calls pregen(work) before the Lean build (and from ./check --setup)
